@@ -37,7 +37,7 @@ PROPS = {
  "C03": {
   "module": "Zog.Props.C03",
   "theorems": COMMON + [P + "C03." + t for t in ["bool_table", "int_from_string", "string_is_display", "time_table", "slice_table", "slice_length_preserved", "set_leaves_other_fields", "ptr_nil_stays_nil", "coercer_selected"]],
-  "streams": [st("coerce", 1500, 200000), eng(2500, 100000)],
+  "streams": [st("coerce", 1500, 200000), eng(2000, 100000), eng(2500, 100000, "prepop")],
   "trusted_base": ENGINE_TB + ["external, supplied per case by the harness from the standard library directly: strconv.ParseFloat, time.Parse, fmt %v"],
   "assumptions": ENGINE_ASSUME,
  },
@@ -167,7 +167,7 @@ PROPS = {
  "C19": {
   "module": "Zog.Props.C19",
   "theorems": COMMON + [P + "C19." + t for t in ["no_schema_writes", "validate_prim_frame", "second_run_same", "slice_default_is_copied"]],
-  "streams": [st("alias", 2500, 100000), eng(1500, 50000)],
+  "streams": [st("alias", 2500, 100000), eng(1500, 50000), eng(1500, 50000, "prepop")],
   "trusted_base": ENGINE_TB + ["Go memory aliasing is not expressible in the value model: destination/schema sharing is decided by the S-alias stream on the real code (second-run equality, input snapshots) and the go/ast fact schemaWrites = []"],
   "assumptions": ENGINE_ASSUME,
  },
